@@ -32,24 +32,24 @@ REPLAY_GROUPS = {
 }
 
 PROPS = {
-    "C01": dict(units=["u4_policy"], kani=[], replay=["policy", "cache"]),
-    "C07": dict(units=["u4_policy", "u1_estimator"], kani=[], replay=["policy", "estimator", "cache"]),
+    "C01": dict(units=["u4_policy", "u19_async_policy"], kani=[], replay=["policy", "cache"]),
+    "C07": dict(units=["u4_policy", "u1_estimator", "u19_async_policy"], kani=[], replay=["policy", "estimator", "cache"]),
     "C13": dict(units=["u1_estimator"], kani=["bbloom"], replay=["estimator"]),
     "C14": dict(units=["u1_estimator"], kani=["bbloom"], replay=["estimator"]),
-    "C20": dict(units=["u1_estimator", "u8_builder", "u7_glue"], kani=["bbloom"], replay=["estimator", "cache"]),
-    "C02": dict(units=["u6_store", "u7_glue"], kani=[], replay=["ttl", "cache"]),
-    "C03": dict(units=["u6_store", "u7_glue"], kani=["ttl"], replay=["ttl"]),
-    "C04": dict(units=["u6_store", "u4_policy", "u7_glue"], kani=["ttl"], replay=["ttl", "policy", "cache"]),
-    "C05": dict(units=["u6_store", "u4_policy", "u8_builder"], kani=["ttl"], replay=["ttl"]),
-    "C09": dict(units=["u6_store", "u7_glue"], kani=[], replay=["ttl", "cache"]),
-    "C18": dict(units=["u6_store", "u7_glue"], kani=["keys"], replay=["ttl", "cache"]),
-    "C06": dict(units=["u7_glue", "u6_store", "u4_policy"], kani=[], replay=["ttl", "policy", "cache"]),
-    "C08": dict(units=["u7_glue", "u6_store"], kani=[], replay=["ttl", "cache"]),
-    "C11": dict(units=["u7_glue", "u6_store", "u4_policy", "u1_estimator"], kani=["histogram"], replay=["ttl", "estimator", "cache", "policy"],
+    "C20": dict(units=["u1_estimator", "u8_builder", "u7_glue", "u19_async"], kani=["bbloom"], replay=["estimator", "cache"]),
+    "C02": dict(units=["u6_store", "u7_glue", "u19_async"], kani=[], replay=["ttl", "cache"]),
+    "C03": dict(units=["u6_store", "u7_glue", "u19_async"], kani=["ttl"], replay=["ttl"]),
+    "C04": dict(units=["u6_store", "u4_policy", "u7_glue", "u19_async", "u19_async_policy"], kani=["ttl"], replay=["ttl", "policy", "cache"]),
+    "C05": dict(units=["u6_store", "u4_policy", "u8_builder", "u19_async_policy"], kani=["ttl"], replay=["ttl"]),
+    "C09": dict(units=["u6_store", "u7_glue", "u19_async"], kani=[], replay=["ttl", "cache"]),
+    "C18": dict(units=["u6_store", "u7_glue", "u19_async"], kani=["keys"], replay=["ttl", "cache"]),
+    "C06": dict(units=["u7_glue", "u6_store", "u4_policy", "u19_async", "u19_async_policy"], kani=[], replay=["ttl", "policy", "cache"]),
+    "C08": dict(units=["u7_glue", "u6_store", "u19_async"], kani=[], replay=["ttl", "cache"]),
+    "C11": dict(units=["u7_glue", "u6_store", "u4_policy", "u1_estimator", "u19_async", "u19_async_policy"], kani=["histogram"], replay=["ttl", "estimator", "cache", "policy"],
                 probes=[("cache", "insert_after_clear_is_kept")]),
-    "C15": dict(units=["u7_glue", "u1_estimator", "u8_builder"], kani=[], replay=["estimator"]),
-    "C16": dict(units=["u7_glue", "u4_policy", "u6_store", "u8_builder"], kani=[], replay=["policy", "ttl", "cache"]),
-    "C17": dict(units=["u7_glue", "u4_policy", "u8_builder"], kani=["histogram"], replay=["policy", "cache"]),
+    "C15": dict(units=["u7_glue", "u1_estimator", "u8_builder", "u19_async"], kani=[], replay=["estimator"]),
+    "C16": dict(units=["u7_glue", "u4_policy", "u6_store", "u8_builder", "u19_async", "u19_async_policy"], kani=[], replay=["policy", "ttl", "cache"]),
+    "C17": dict(units=["u7_glue", "u4_policy", "u8_builder", "u19_async", "u19_async_policy"], kani=["histogram"], replay=["policy", "cache"]),
     "C19": dict(units=["u19_async", "u19_async_policy", "u6_store"], kani=[], replay=[]),
 }
 
